@@ -482,14 +482,14 @@ func c12Gen(t *rapid.T) c12Case {
 		c.Splits = []int{rapid.IntRange(1, 80).Draw(t, "splitat")}
 	}
 	switch rapid.IntRange(0, 5).Draw(t, "kind") {
-	case 0, 1: // pure cut
-	case 2: // mutations
+	case 0: // pure cut
+	case 1: // mutations
 		nm := rapid.IntRange(1, 3).Draw(t, "nmut")
 		for i := 0; i < nm; i++ {
 			c.Muts = append(c.Muts, c17Mut{K: rapid.SampledFrom([]string{"dup", "del", "flip", "lie", "swap", "type", "flags", "stream"}).Draw(t, "mk"),
 				I: rapid.IntRange(0, 40).Draw(t, "mi"), J: rapid.IntRange(0, 5000).Draw(t, "mj"), V: rapid.IntRange(0, 255).Draw(t, "mv")})
 		}
-	case 3:
+	case 2, 3:
 		c.Adv = rapid.SampledFrom([]string{"rst", "goaway", "oversized", "hpack-garbage", "push", "idle-stream", "wu-overflow", "settings-bad", "unknown-frame", "ping-flood"}).Draw(t, "adv")
 		c.AdvAt = rapid.IntRange(0, 30).Draw(t, "advat")
 	case 4:
